@@ -32,7 +32,7 @@ REAL_VS_STUB = {'real': ['kyupy.sim.SimOps', 'kyupy.wave_sim (all kernels, host 
 ASSUMPTIONS = ['stimuli are exact 0.0/1.0 (CPU assign treats non-zero as 1, GPU assign thresholds at 0.5; outside {0,1} the property does not speak)',
                's[8]/s[9] with sd>0 are excluded as in the property\'s own observation list',
                'lane-position and lane-count pairs use one dataset or selection mode 0/1 (the default random mode seeds every lane differently by design)']
-EXPECTED_PROBES = ['pair_restore', 'pair_reuse', 'pair_strip', 'pair_gpu', 'pair_lanes', 'pair_k', 'pair_dataset', 'pair_logic', 'ppo2ppi_then_keep', 'k_lt_sims', 'multi_dataset']
+EXPECTED_PROBES = ['lanes_in_mode2', 'pair_restore', 'pair_reuse', 'pair_strip', 'pair_gpu', 'pair_lanes', 'pair_k', 'pair_dataset', 'pair_logic', 'ppo2ppi_then_keep', 'k_lt_sims', 'multi_dataset']
 
 
 def gen(rng, tier, i):
@@ -66,7 +66,8 @@ def gen(rng, tier, i):
             n2 = rng.choice([sims, sims + 1, sims + 3, max(1, sims - 1), 9, 9, 33])
             perm = list(range(n2)); rng.shuffle(perm)
             lane_map = [perm[l] if l < n2 else None for l in range(sims)]
-            pairs.append({'kind': 'lanes', 'sims2': n2, 'lane_map': lane_map, 'cls': rng.choice(['cpu', 'gpu'])})
+            pairs.append({'kind': 'lanes', 'sims2': n2, 'lane_map': lane_map, 'cls': rng.choice(['cpu', 'gpu']),
+                          'mode2_seeds': [rng.randrange(1 << 12) for _ in range(sims)] if n_sets > 1 and rng.random() < 0.6 else None})
         elif kind == 'k':
             if sims > 1: pairs.append({'kind': 'k', 'k': rng.randint(1, sims - 1), 'cls': rng.choice(['cpu', 'gpu']), 'block': wavegen.gen_block(rng),
                                        'only': [0] if len(batches) > 1 and rng.random() < 0.5 else None})
@@ -188,13 +189,23 @@ def execute(case):
                     res.violate('gpu-path-changes-abuf', f'batch {bno}: abuf CPU {a["abuf"].tolist()} vs GPU {b["abuf"].tolist()}'); return res
             if not base['c_reuse'] and not cmp_memory(res, 'gpu-path-changes-memory', 'CPU vs GPU path', hA, A, h2, o2, ident): return res
         elif kind == 'lanes':
-            rel = [(l, t) for l, t in enumerate(p['lane_map']) if t is not None and t < p['sims2']]
+            rel = [(l, t) for l, t in enumerate(p['lane_map']) if l < n and t is not None and t < p['sims2']]     # (a shrunk case may have fewer lanes than the map)
             cfgB = dict(base, cls=p['cls'], sims=p['sims2'], lane_map=p['lane_map'])
+            cfgA = dict(base, cls=p['cls'])
+            if p.get('mode2_seeds'):
+                # random per-operation dataset picking (mode 2): the pick depends on the per-simulation seed simctl_int[0], which
+                # travels with the stimulus to its new lane
+                seeds = p['mode2_seeds']
+                moved = [0] * p['sims2']
+                for l, t in rel: moved[t] = seeds[l]
+                cfgA['simctl'] = {'mode': 2, 'per_lane': seeds}
+                cfgB['simctl'] = {'mode': 2, 'per_lane': moved}
+                res.probe('lanes_in_mode2')
             h2, o2 = wsim.run_config(built, case, cfgB, res, monitors=('M3',))
             res.fault('F-lanes'); differ += 1
             cA = A
-            if p['cls'] != 'cpu':
-                h1, cA = wsim.run_config(built, case, dict(base, cls=p['cls']), res, monitors=())
+            if p['cls'] != 'cpu' or p.get('mode2_seeds'):
+                h1, cA = wsim.run_config(built, case, cfgA, res, monitors=())
             if not cmp_ports(res, 'lane-position-changes-result', f'sims {n} vs {p["sims2"]}, lane map {p["lane_map"]} ({p["cls"]})', cA, o2, rel): return res
         elif kind == 'k':
             k = p['k']
